@@ -15,6 +15,7 @@ fn strategy(kind: &str, rng: &mut Rng) -> Box<dyn Strategy> {
         "pct" => Box::new(Pct::new(rng.fork(), 3, 400)),
         "sticky" => Box::new(RandomWalk { rng: rng.fork(), stay: 85 }),
         "straggler" => Box::new(Straggler::new(rng.fork(), 2, 250)),
+        "slowdb" => Box::new(Straggler::slow_db(rng.fork(), 3, 300)),
         _ => Box::new(RandomWalk { rng: rng.fork(), stay: 30 }),
     }
 }
@@ -50,7 +51,7 @@ fn main() {
             let block_seed = rng.next();
             let mut crng = Rng(block_seed);
             let n = crng.range(tlo, thi) as usize;
-            let opts = GenOpts { invalid: crng.chance(1, 2), destroy: crng.chance(1, 2), create: crng.chance(1, 2), beneficiary_roles: true, shared_callers: crng.chance(1, 2), chain: false };
+            let opts = GenOpts { invalid: crng.chance(1, 2), destroy: crng.chance(1, 2), create: crng.chance(1, 2), beneficiary_roles: true, shared_callers: crng.chance(1, 2), chain: false, cb: false };
             let (world, block) = gen_block(&mut crng, n, opts);
             let mut orc = oracle(&world.db, &block);
             // half of the blocks run on a database with a persistent fault on a key in-order
@@ -116,6 +117,7 @@ fn main() {
             beneficiary_roles: optsv.contains("ben"),
             shared_callers: optsv.contains("shared") && crng.chance(1, 2),
             chain: optsv.contains("chain"),
+            cb: optsv.contains("cb"),
         };
         let (mut world, block) = gen_block(&mut crng, n, opts);
         world.db.points = dbpoints && !free;
@@ -132,7 +134,7 @@ fn main() {
         let mut srng = Rng(sched_seed);
         let w = *srng.pick(&workers);
         let rc = RunCfg { workers: w, ..Default::default() };
-        let sk = if strat == "mix" { *srng.pick(&["random", "sticky", "pct"]) } else if strat == "mix2" { *srng.pick(&["random", "sticky", "pct", "straggler", "straggler"]) } else { strat.as_str() };
+        let sk = if strat == "mix" { *srng.pick(&["random", "sticky", "pct"]) } else if strat == "mix2" { *srng.pick(&["random", "sticky", "pct", "straggler", "straggler", "slowdb"]) } else { strat.as_str() };
         let st = if free { None } else { Some(strategy(sk, &mut srng)) };
         let run = run_grevm(world.db.clone_data(), &block, &rc, st, maxsteps);
         let diffs = match &fault {
